@@ -355,6 +355,117 @@ example : (match mclaim ⟨5, [⟨2 * P, 3 * P, P⟩, ⟨P, 7 * P, 0⟩]⟩ (P /
     | _ => false) = true := by decide
 example : pendingSum [⟨2 * P, 3 * P, P⟩, ⟨P, 7 * P, 0⟩] = 10 ∧ (⟨P, 7 * P, 0⟩ : Inst).pending = 7 := by decide
 
+/-! ## the delegator source: a validator event is a change of every delegator's source shares, hook first
+
+    A delegator's source shares are the tokens delegated to BONDED validators (`GetTotalDelegated`), the total is
+    the bonded pool.  A validator being slashed (`BeforeValidatorSlashed`: status and tokens still the old ones),
+    leaving the bonded set (`AfterValidatorBeginUnbonding`: already Unbonding, counted explicitly) or entering it
+    (`AfterValidatorBonded`: already Bonded, left out explicitly) changes the source shares of every one of its
+    delegators at once; the hook synchronises each of them with the shares held BEFORE the event.  In the model
+    that is a list of `Op.change` — so the theorems above, which quantify over arbitrary share changes, cover it. -/
+
+/-- a validator event: the listed delegators' new source shares, each written after its hook -/
+def validatorEvent (ds : List (Addr × Int)) : List Op := ds.map fun d => Op.change d.1 d.2
+
+/-- the same as one step of the state -/
+def changeAll (σ : St) : List (Addr × Int) → Res St
+  | [] => .ok σ
+  | d :: ds =>
+    match change σ d.1 d.2 with
+    | .ok σ1 => changeAll σ1 ds
+    | .err => .err
+    | .panic => .panic
+
+/-- A validator event leaves the global index alone, credits every affected delegator exactly the reward pending
+    on the shares it held BEFORE the event (stored index := global index, new shares written), and leaves every
+    other participant's record untouched. -/
+theorem C09_validator_event (ds : List (Addr × Int)) :
+    ∀ (σ σ' : St), (ds.map Prod.fst).Nodup → changeAll σ ds = .ok σ' →
+      σ'.I = σ.I ∧
+      (∀ d ∈ ds, (σ'.u d.1).r = (σ.u d.1).r + pending σ d.1 ∧ (σ'.u d.1).i = σ.I ∧ (σ'.u d.1).s = d.2) ∧
+      (∀ v, v ∉ ds.map Prod.fst → σ'.u v = σ.u v) := by
+  induction ds with
+  | nil =>
+    intro σ σ' _ h
+    simp only [changeAll, Res.ok.injEq] at h
+    subst h
+    exact ⟨rfl, fun d hd => absurd hd List.not_mem_nil, fun v _ => rfl⟩
+  | cons d ds ih =>
+    intro σ σ' hn h
+    simp only [List.map_cons, List.nodup_cons] at hn
+    obtain ⟨hd, hn'⟩ := hn
+    cases h1 : change σ d.1 d.2 with
+    | err => simp only [changeAll, h1] at h; cases h
+    | panic => simp only [changeAll, h1] at h; cases h
+    | ok σ1 =>
+      simp only [changeAll, h1] at h
+      obtain ⟨iI, iin, iout⟩ := ih σ1 σ' hn' h
+      obtain ⟨fI, foth⟩ := C09_frame σ σ1 d.1 d.2 0 0 0 0 0 (Or.inr (Or.inl h1))
+      obtain ⟨or, oi, -⟩ := C09_frame_own σ σ1 d.1 d.2 (Or.inr h1)
+      obtain ⟨σm, hm, rfl⟩ := change_ok σ σ1 d.1 d.2 h1
+      obtain ⟨mI, -, -, -, -, mi, -, -⟩ := worth_sync σ σm d.1 hm
+      obtain ⟨-, -, -, ws, -, -, -⟩ := worth_write σm d.1 d.2 (by rw [mi, mI])
+      refine ⟨by rw [iI, fI], ?_, ?_⟩
+      · intro e he
+        rcases List.mem_cons.mp he with rfl | he
+        · rw [iout e.1 hd]
+          exact ⟨or, by rw [oi, fI], ws⟩
+        · have hne : e.1 ≠ d.1 := fun hh => hd (hh ▸ List.mem_map_of_mem (f := Prod.fst) he)
+          obtain ⟨a1, a2, a3⟩ := iin e he
+          obtain ⟨b1, b2⟩ := foth e.1 hne
+          exact ⟨by rw [a1, b1, b2], by rw [a2, fI], a3⟩
+      · intro v hv
+        simp only [List.map_cons, List.mem_cons, not_or] at hv
+        rw [iout v hv.2, (foth v hv.1).1]
+
+/-- Validator events anywhere in a history keep the premises of `C09_no_over_distribution` and `C09_integral`:
+    every operation of the event is a hooked share change of a listed participant. -/
+theorem C09_validator_event_hooked (us : List Addr) (ds : List (Addr × Int))
+    (h : ∀ d ∈ ds, d.1 ∈ us ∧ 0 ≤ d.2) :
+    (∀ o ∈ validatorEvent ds, o.hooked = true) ∧ (∀ o ∈ validatorEvent ds, o.okFor us) := by
+  constructor
+  · intro o ho
+    obtain ⟨d, -, rfl⟩ := List.mem_map.mp ho
+    rfl
+  · intro o ho
+    obtain ⟨d, hd, rfl⟩ := List.mem_map.mp ho
+    exact h d hd
+
+/-- …hence the total credited stays within the emission over any history with validator events in it
+    (`pre`, `post`: any hooked operations — blocks, delegations, claims, further events). -/
+theorem C09_validator_event_no_over_distribution (p : Period) (us : List Addr) (pre post : List Op)
+    (ds : List (Addr × Int)) (σ0 : St)
+    (hr : 0 ≤ p.rate) (hn : us.Nodup) (hs : shares us σ0 ≤ σ0.T) (hi : IdxLe σ0)
+    (hd : ∀ d ∈ ds, d.1 ∈ us ∧ 0 ≤ d.2)
+    (hh : ∀ o ∈ pre ++ post, o.hooked = true) (ho : ∀ o ∈ pre ++ post, o.okFor us) :
+    let x := grun p (σ0, Ghost.zero) (pre ++ validatorEvent ds ++ post)
+    2 * P * P * (sumOver us (fun a => (x.1.u a).r + pending x.1 a) + x.2.claimed) ≤
+      2 * W us σ0 + x.2.emitted + (x.2.nsync + us.length) * (P * P + P) := by
+  intro x
+  obtain ⟨e1, e2⟩ := C09_validator_event_hooked us ds hd
+  have hh' : ∀ o ∈ pre ++ validatorEvent ds ++ post, o.hooked = true := by
+    intro o ho'
+    simp only [List.mem_append] at ho' hh
+    rcases ho' with (h1 | h1) | h1
+    · exact hh o (Or.inl h1)
+    · exact e1 o h1
+    · exact hh o (Or.inr h1)
+  have ho'' : ∀ o ∈ pre ++ validatorEvent ds ++ post, o.okFor us := by
+    intro o ho'
+    simp only [List.mem_append] at ho' ho
+    rcases ho' with (h1 | h1) | h1
+    · exact ho o (Or.inl h1)
+    · exact e2 o h1
+    · exact ho o (Or.inr h1)
+  exact (C09_no_over_distribution p us _ σ0 hr hn hs hi hh' ho'').1
+
+/-- non-vacuity: two delegators of a validator that leaves the bonded set (shares 5 and 7 → 0), a third one of
+    another validator untouched: both are credited their pending reward, the third keeps its record -/
+example : (match changeAll ⟨2 * P, 13 * P, 0, fun a => if a = 0 then ⟨5 * P, P, 1⟩ else if a = 1 then ⟨7 * P, 0, 0⟩ else ⟨P, 0, 4⟩⟩
+      [(0, 0), (1, 0)] with
+    | .ok σ' => decide (σ'.u 0 = ⟨0, 2 * P, 6⟩ ∧ σ'.u 1 = ⟨0, 2 * P, 14⟩ ∧ σ'.u 2 = ⟨P, 0, 4⟩ ∧ σ'.I = 2 * P)
+    | _ => false) = true := by decide
+
 /-! ## the premise "every share change is preceded by a sync with the pre-change shares",
        regenerated from the source modules on every run -/
 
